@@ -46,6 +46,8 @@ var Placements = []Placement{
 	{Out: "mock_link_gen.go", Loaded: true, Writable: true, Symlink: "../linktarget/src_real_gen.go"},
 	// ... and a dangling one whose relative target means different places from the link's directory and from moq's working directory
 	{Out: "../mocks/dangling_gen.go", Pkg: "mocks", Writable: true, Symlink: "gen/new_gen.go", Dangling: true},
+	// the external test package named explicitly, but a file name that is not a test file
+	{Out: "mock_ext.go", Pkg: "src_test", Loaded: true, Writable: true},
 }
 
 // Step kinds.
@@ -89,8 +91,12 @@ type Scenario struct {
 	// in the source package directory with ".", as a go:generate line would)
 	FromRoot bool `json:"from_root,omitempty"`
 	// MainPkg: the source package is a command (package main with func main)
-	MainPkg bool   `json:"main_pkg,omitempty"`
-	Steps   []Step `json:"steps"`
+	MainPkg bool `json:"main_pkg,omitempty"`
+	// SiblingMock: the source package already holds another moq-generated file
+	// (the mock of another go:generate line), which goes stale - and stops the
+	// package from type-checking - when the interfaces evolve
+	SiblingMock bool   `json:"sibling_mock,omitempty"`
+	Steps       []Step `json:"steps"`
 }
 
 func (s Step) String() string {
@@ -133,6 +139,9 @@ func (sc *Scenario) String() string {
 	if sc.MainPkg {
 		p = append(p, "[source is package main]")
 	}
+	if sc.SiblingMock {
+		p = append(p, "[another generated mock in the package]")
+	}
 	for _, s := range sc.Steps {
 		p = append(p, s.String())
 	}
@@ -174,6 +183,20 @@ func GenScenario(tp *tape.Tape, seed uint64, pf Profile) *Scenario {
 	sc.FromRoot = side.Chance(250, 1000)
 	inPlace := sc.Place.Pkg == "" && sc.Place.Symlink == "" && sc.Place.Writable
 	sc.MainPkg = inPlace && !sc.IncompleteMod && side.Chance(200, 1000)
+	sc.SiblingMock = !sc.IncompleteMod && side.Chance(180, 1000)
+	if sc.SiblingMock && sc.Place.Writable && side.Chance(600, 1000) {
+		// a scripted history for it: generate, let the interfaces evolve (the
+		// sibling mock is now stale and the package no longer type-checks),
+		// regenerate with and without -rm
+		first := genRun(side, Profile{}, sc.Place)
+		first.Rm, first.Stdout = false, false
+		again := genRun(side, Profile{}, sc.Place)
+		again.Rm, again.Stdout = true, false
+		sc.Steps = []Step{first, {Kind: StepEvolve, Damage: "shape"}, again, {Kind: StepRepeat}}
+		if side.Bool() {
+			sc.Steps = []Step{{Kind: StepEvolve, Damage: "shape"}, again, first}
+		}
+	}
 	// a fallback after a failed non-write primitive may fail in turn: a second
 	// rule on the writes (or, after a failed open, on whatever is opened next)
 	for i := range sc.Steps {
@@ -203,7 +226,7 @@ func genScenario(tp *tape.Tape, seed uint64, pf Profile) *Scenario {
 	if tp.Chance(150, 1000) {
 		sc.Place = Placements[4+tp.Int(2)]
 	} else {
-		w := []int{0, 0, 0, 1, 2, 3, 6, 7, 8, 9, 10, 11, 12, 12, 13, 13, 14}
+		w := []int{0, 0, 0, 1, 2, 3, 6, 7, 8, 9, 10, 11, 12, 12, 13, 13, 14, 15}
 		sc.Place = Placements[w[tp.Int(len(w))]]
 	}
 	sc.IncompleteMod = tp.Chance(70, 1000)
